@@ -6,6 +6,7 @@ import (
 	"bytes"
 	"fmt"
 	"iter"
+	"slices"
 	"testing"
 
 	"github.com/fluhus/biostuff/sequtil"
@@ -49,9 +50,14 @@ func genC12(t *rapid.T, thorough bool) C12Case {
 	return c
 }
 
-func checkC12(c C12Case, o *Obs) error {
+func checkC12(c C12Case, o *Obs) (err error) {
 	// either an exact-capacity slice (nil when empty) or a window with valid bases behind it
 	src := window(c.Src, (len(c.Src)+len(c.Dst)+c.K+c.Spare)%2 == 0)
+	defer func() {
+		if err == nil {
+			err = windowIntact(src)
+		}
+	}()
 	k := c.K
 	if k < 1 {
 		k = 1
@@ -179,9 +185,26 @@ func checkC12(c C12Case, o *Obs) error {
 		}
 	}
 	o.ClassIf(palin, "palindromic k-mer")
+	// items of the first iteration kept as yielded (not copied) must survive later iterations
+	var keptFirst [][]byte
+	if p := catch(func() {
+		for x := range sequtil.CanonicalSubsequences(src, k) {
+			keptFirst = append(keptFirst, x)
+			if len(keptFirst) > len(src)+2 {
+				break
+			}
+		}
+	}); p != nil {
+		return fmt.Errorf("CanonicalSubsequences(%q,%d) panicked on a further pass: %v", src, k, p)
+	}
 	ritems, err := collect(want)
 	if err != nil {
 		return err
+	}
+	for i := range keptFirst {
+		if i >= len(items) || !bytes.Equal(keptFirst[i], items[i]) {
+			return fmt.Errorf("CanonicalSubsequences(%q,%d): item %d, kept by the consumer as yielded, reads %q after CanonicalSubsequences ran over another sequence (%q); it was %q", src, k, i, keptFirst[i], want, items[min(i, len(items)-1)])
+		}
 	}
 	// The value returned by CanonicalSubsequences stands for the sequence: ranging over it
 	// again, also after an abandoned pass, yields the items again.
@@ -293,6 +316,29 @@ func checkC12(c C12Case, o *Obs) error {
 			return fmt.Errorf("CanonicalSubsequences(%q,%d) created before the buffer was refilled with %q yields %q: neither the canonical k-mers of the old content %q nor of the new content %q", src, k, want, live, items, ritems)
 		}
 	}
+	// A read buffer that is refilled in place between two complete passes (same length, other
+	// content): the second pass is about the new content.
+	if len(src) >= k && len(src) > 0 {
+		buf := bytes.Clone(src)
+		if _, err := collectOf(buf, k); err != nil {
+			return err
+		}
+		other := bytes.Clone(src)
+		slices.Reverse(other) // another valid sequence of the same length
+		copy(buf, other)
+		got, err := collectOf(buf, k)
+		if err != nil {
+			return err
+		}
+		for i := range got {
+			if w := ref.Canonical(other[i : i+k]); !bytes.Equal(got[i], w) {
+				return fmt.Errorf("CanonicalSubsequences over a buffer that held %q on an earlier complete pass and now holds %q (k=%d): item %d = %q, want %q", src, other, k, i, got[i], w)
+			}
+		}
+		if len(got) != len(other)-k+1 {
+			return fmt.Errorf("CanonicalSubsequences over a refilled buffer yields %d items, want %d", len(got), len(other)-k+1)
+		}
+	}
 	if len(ritems) != len(items) {
 		return fmt.Errorf("reverse complement of %q yields %d canonical %d-mers, the sequence itself %d", src, len(ritems), k, len(items))
 	}
@@ -378,3 +424,18 @@ func propC12() Prop[C12Case] {
 func TestC12(t *testing.T) { Run(t, propC12()) }
 
 func FuzzGenC12(f *testing.F) { RunFuzz(f, propC12()) }
+
+// collectOf returns copies of the items of CanonicalSubsequences(s, k).
+func collectOf(s []byte, k int) (items [][]byte, err error) {
+	if p := catch(func() {
+		for x := range sequtil.CanonicalSubsequences(s, k) {
+			items = append(items, bytes.Clone(x))
+			if len(items) > len(s)+2 {
+				break
+			}
+		}
+	}); p != nil {
+		return nil, fmt.Errorf("CanonicalSubsequences(%q,%d) panicked: %v", s, k, p)
+	}
+	return items, nil
+}
